@@ -196,6 +196,46 @@ def registration(machine_cls, kind, where, sources):
     return "RegCumulative" if meth == "add_cumulative" else "RegNonCumulative"
 
 
+def check_resets_margins(machine_cls, sources):
+    """Does PandoraMachine.check_conf start its FIRST round (`if not right_left_img_check:` before the
+    transitions are added and before the loop over the steps) with `self.margins = GlobalMargins()`?
+    Returns True / False; any other use of self.margins in check_conf is an unknown shape."""
+    where = "PandoraMachine.check_conf"
+    func = getattr(machine_cls, "check_conf", None)
+    if func is None:
+        fail(where, "no method check_conf")
+    node, src = fn_ast(func, where)
+    sources.append((inspect.getsourcefile(func), where, sha1_of(src)))
+    argnames = [a.arg for a in node.args.args]
+    if "right_left_img_check" not in argnames:
+        fail(where, "no parameter right_left_img_check (the second-round marker)")
+    resets = 0
+    started = False
+    for st in node.body:
+        is_add = (isinstance(st, ast.Expr) and isinstance(st.value, ast.Call) and isinstance(st.value.func, ast.Attribute)
+                  and st.value.func.attr == "add_transitions")
+        if is_add or isinstance(st, (ast.For, ast.While)):
+            started = True
+        if started:
+            continue
+        if isinstance(st, ast.If) and isinstance(st.test, ast.UnaryOp) and isinstance(st.test.op, ast.Not) \
+                and isinstance(st.test.operand, ast.Name) and st.test.operand.id == "right_left_img_check" \
+                and not st.orelse:
+            for sub in st.body:
+                if isinstance(sub, ast.Assign) and len(sub.targets) == 1 and is_self_attr(sub.targets[0], "margins"):
+                    v = sub.value
+                    if not (isinstance(v, ast.Call) and isinstance(v.func, ast.Name) and v.func.id == "GlobalMargins"
+                            and not v.args and not v.keywords):
+                        fail(where, "self.margins is reset to something else than GlobalMargins()")
+                    resets += 1
+    mentions = sum(1 for sub in ast.walk(node) if is_self_attr(sub, "margins"))
+    if mentions != resets:
+        fail(where, "self.margins used in check_conf outside the first-round reset `self.margins = GlobalMargins()`")
+    if resets > 1:
+        fail(where, "several resets of self.margins")
+    return resets == 1
+
+
 def main():
     sys.path.insert(0, REPO)
     import pandora  # noqa: F401  pylint: disable=import-outside-toplevel,unused-import
@@ -249,7 +289,11 @@ def main():
     body += "Definition gen_reg (k : kind) : reg :=\n  match k with\n" + "\n".join(regs) + "\n  end.\n\n"
     body += "Definition gen_expr (k : kind) : mexpr4 :=\n  match k with\n" + "\n".join(exprs) + "\n  end.\n\n"
     body += "Definition gen_filter (m : fmethod) : mexpr4 :=\n  match m with\n" + "\n".join(filt) + "\n  end.\n\n"
-    body += "Definition gen_margin_tables : margin_tables := mkTbl gen_reg gen_expr gen_filter.\n"
+    body += "Definition gen_margin_tables : margin_tables := mkTbl gen_reg gen_expr gen_filter.\n\n"
+    resets = check_resets_margins(PandoraMachine, sources)
+    body += ("(* PandoraMachine.check_conf, first round: `if not right_left_img_check: ... self.margins = GlobalMargins()`\n"
+             "   before the transitions are added *)\n"
+             f"Definition gen_check_resets_margins : bool := {'true' if resets else 'false'}.\n")
     path, changed = emit("Margins", body, sources)
     print(f"gen_margins: {path} {'rewritten' if changed else 'unchanged'} sources={len(sources)}")
 
